@@ -813,7 +813,21 @@ func (v *FnVC) translateAll() {
 		v.params[p.Name()] = t
 		v.addModelVar(p.Name(), t)
 	}
-	for _, fv := range fn.FreeVars {
+	for i, fv := range fn.FreeVars {
+		if et, ok := immutableCapture(fn, i); ok {
+			// a captured variable that is assigned exactly once (before the closure is made):
+			// the closure sees a constant
+			key := "L:fv." + fv.Name()
+			n := "|fv." + sanitize(fv.Name()) + "|"
+			v.declare(n, v.sortOf(et))
+			v.localSorts[key] = v.sortOf(et)
+			v.localTypes[key] = et
+			v.places[fv] = &Place{Kind: "local", Key: key, Typ: et}
+			v.st[key] = n
+			v.params[fv.Name()] = Term{n, et}
+			v.assume(v.rangeOf(n, et))
+			continue
+		}
 		n := "|fv." + sanitize(fv.Name()) + "|"
 		v.declare(n, v.sortOf(fv.Type()))
 		v.vals[fv] = Term{n, fv.Type()}
@@ -825,7 +839,7 @@ func (v *FnVC) translateAll() {
 	}
 	v.assume(fmt.Sprintf("(> %s 0)", v.get("nextref")))
 	// preconditions
-	v.initEnv = v.newEnv(v.st, nil)
+	v.initEnv = v.newEnv(State{}, nil) // entry state: every heap at its initial version
 	for _, cl := range v.fc.Clauses {
 		if cl.Kind == "requires" && (cl.Behav == "" || cl.Behav == v.behav) {
 			t := v.specBool(cl.E, v.initEnv, cl)
@@ -1257,4 +1271,81 @@ func (v *FnVC) pointVars() []ModelVar {
 		}
 	}
 	return out
+}
+
+// immutableCapture: free variable i of fn is bound to a variable of the enclosing
+// function that is stored exactly once and otherwise only read or captured.
+func immutableCapture(fn *ssa.Function, i int) (types.Type, bool) {
+	parent := fn.Parent()
+	if parent == nil {
+		return nil, false
+	}
+	var binding ssa.Value
+	for _, b := range parent.Blocks {
+		for _, ins := range b.Instrs {
+			if mc, ok := ins.(*ssa.MakeClosure); ok && mc.Fn == fn && i < len(mc.Bindings) {
+				binding = mc.Bindings[i]
+			}
+		}
+	}
+	if binding == nil {
+		return nil, false
+	}
+	switch b := binding.(type) {
+	case *ssa.Alloc:
+		stores := 0
+		for _, r := range *b.Referrers() {
+			switch x := r.(type) {
+			case *ssa.Store:
+				if x.Addr != b {
+					return nil, false // address escapes into memory
+				}
+				stores++
+			case *ssa.MakeClosure:
+				cf, _ := x.Fn.(*ssa.Function)
+				for k, bb := range x.Bindings {
+					if bb == ssa.Value(b) && cf != nil && k < len(cf.FreeVars) && storesThrough(cf, cf.FreeVars[k]) {
+						return nil, false
+					}
+				}
+			case *ssa.UnOp, *ssa.DebugRef:
+			default:
+				return nil, false
+			}
+		}
+		if stores > 1 {
+			return nil, false
+		}
+		// nested closures capturing the same cell must not store to it either
+		return b.Type().(*types.Pointer).Elem(), true
+	case *ssa.FreeVar:
+		// captured from an outer closure: immutable if it is so there
+		for j, fv := range parent.FreeVars {
+			if fv == b {
+				return immutableCapture(parent, j)
+			}
+		}
+	}
+	return nil, false
+}
+
+// storesThrough: some instruction of fn (or of a closure it makes) stores through fv.
+func storesThrough(fn *ssa.Function, fv *ssa.FreeVar) bool {
+	for _, r := range *fv.Referrers() {
+		switch x := r.(type) {
+		case *ssa.Store:
+			return true
+		case *ssa.MakeClosure:
+			cf, _ := x.Fn.(*ssa.Function)
+			for k, bb := range x.Bindings {
+				if bb == ssa.Value(fv) && cf != nil && k < len(cf.FreeVars) && storesThrough(cf, cf.FreeVars[k]) {
+					return true
+				}
+			}
+		case *ssa.UnOp, *ssa.DebugRef:
+		default:
+			return true
+		}
+	}
+	return false
 }
